@@ -231,13 +231,22 @@ impl Runtime {
                     .upsert(e)
                     .unwrap_or_else(|err| error!("scher.initialize upsert={}", err));
 
+                // the state this event reports
+                let state = e.state();
                 let ctx = e.create_context();
                 // run the hook events
                 e.run_hooks(&ctx)
                     .unwrap_or_else(|err| error!("scher.initialize hooks={}", err));
 
                 // check task is allowed to emit message to client
-                if !e.state().is_pending() && !e.state().is_running() && !e.is_emit_disabled() {
+                // a hook may have moved the task on (a catch without steps reviews and completes it):
+                // that move is reported by its own event, so only the state this event was raised
+                // for is announced here
+                if e.state() == state
+                    && !e.state().is_pending()
+                    && !e.state().is_running()
+                    && !e.is_emit_disabled()
+                {
                     let msg = e.create_message();
                     debug!("emit_message:{msg:?}");
                     rt.emitter().emit_message(&msg);
